@@ -34,6 +34,49 @@ def run(fx, rep, tier):
         rule_wire(fx, rep, new, info)
     rule_select(fx, rep)
     rule_poll(fx, rep)
+    rule_overhead(fx, rep)
+
+
+def rule_overhead(fx, rep):
+    """C14-OVERHEAD. "After subtracting the configured move overhead": the value TimeStrategy::new subtracts is the
+    `move_overhead` field of EngineOptions, so the configured value must survive until the search - who-may-write: the field is
+    assigned only by the Move Overhead option's own setter, and no function overwrites a whole EngineOptions through a reference
+    (`*options = EngineOptions { hash_size, ..Default::default() }` in another option's setter silently resets the overhead to 0
+    when the options arrive in the other order)."""
+    n, ok = 0, True
+    seen_field = False
+    for b in fx.fn_bodies():
+        nb = norm(b.name)
+        if "::tests::" in nb:
+            continue
+        sites = []
+        for bb, j, st in b.stmts():
+            if st["k"] != "assign" or not st["lhs"].get("p"):
+                continue
+            pr = st["lhs"]["p"]
+            last = pr[-1]
+            base_ty = b.local_ty(st["lhs"]["l"])
+            if isinstance(last, dict) and last.get("n") == "move_overhead" and "EngineOptions" in base_ty:
+                sites.append(("field", st.get("line")))
+            elif pr == ["*"] and base_ty.replace("&mut ", "").replace("&", "").strip().endswith("options::EngineOptions"):
+                sites.append(("whole", st.get("line")))
+        for bb, t in b.calls():
+            d = t.get("dest") or {}
+            if d.get("p") == ["*"] and b.local_ty(d["l"]).replace("&mut ", "").strip().endswith("options::EngineOptions"):
+                sites.append(("whole", t.get("line")))
+        for kind, line in sites:
+            n += 1
+            seen_field = seen_field or kind == "field"
+            good = kind == "field" and "MoveOverhead" in nb
+            rep.obligation(good)
+            if not good:
+                ok = False
+                what = "assigns `move_overhead`" if kind == "field" else "overwrites a whole `EngineOptions` through a reference"
+                rep.violation("C14-OVERHEAD", f"C14-OVERHEAD/{nb.split('::')[-2] if '::' in nb else nb}/{kind}", f"`{b.name}` (line {line}) {what}: a Move Overhead configured earlier is lost, the limit computed by "
+                              "TimeStrategy::new no longer leaves the overhead the GUI asked for and move + overhead can exceed the clock", {"fn": b.name, "file": b.file, "line": line})
+    if not seen_field:
+        rep.notes.append("C14-OVERHEAD: no assignment to an `EngineOptions.move_overhead` field found; clause not decided")
+    rep.rule("C14-OVERHEAD", n, 0, ok, "the configured move overhead is written only by its own setter")
 
 
 def pC04_exempt(fx):
@@ -330,7 +373,29 @@ def analyse_new(fx, rep, new):
         if proj is not None:
             # `let (soft, hard) = match tc { .. => (a, b), .. }`: one tuple temp assigned per arm, then projected
             T, k = proj
-            for d in new.defs().get(T, []):
+            for _hop in range(4):
+                # the tuple may arrive through plain copies (a spliced helper's return slot): descend to where it is built
+                dT = new.defs().get(T, [])
+                srcs = {d[3]["rv"]["op"]["pl"]["l"] for d in dT if d[0] == "stmt" and d[3]["rv"]["k"] == "use" and "pl" in d[3]["rv"]["op"] and not d[3]["rv"]["op"]["pl"].get("p")}
+                if dT and len(srcs) == 1 and all(d[0] == "stmt" and d[3]["rv"]["k"] == "use" and "pl" in d[3]["rv"]["op"] and not d[3]["rv"]["op"]["pl"].get("p") for d in dT):
+                    T = srcs.pop()
+                else:
+                    break
+            work, seenT = [T], set()
+            alld = []
+            while work:
+                # a tuple that arrives through a plain copy of another local (a spliced helper's return slot) is built where that
+                # local is defined
+                Tx = work.pop()
+                if Tx in seenT:
+                    continue
+                seenT.add(Tx)
+                for d in new.defs().get(Tx, []):
+                    if d[0] == "stmt" and d[3]["rv"]["k"] == "use" and "pl" in d[3]["rv"]["op"] and not d[3]["rv"]["op"]["pl"].get("p") and len(seenT) < 6:
+                        work.append(d[3]["rv"]["op"]["pl"]["l"])
+                    else:
+                        alld.append(d)
+            for d in alld:
                 if d[0] == "stmt" and d[3]["rv"]["k"] == "agg" and d[3]["rv"].get("agg") == "tuple" and k < len(d[3]["rv"]["ops"]):
                     cands.append((d[1], new.expr(d[3]["rv"]["ops"][k], expand_named=True, at=d[1])))
                 elif d[0] == "stmt" and d[3]["rv"]["k"] == "use":
@@ -886,6 +951,8 @@ S = "src/engine/search/mod.rs"
 U = "src/engine/uci/mod.rs"
 P = "src/engine/uci/parser.rs"
 MUTANTS = [
+    {"name": "the Hash setter rebuilds the options from their defaults (seed C14-8a)", "expect": "C14-OVERHEAD/HashOption/whole",
+     "edits": [("src/engine/uci/options.rs", "        options.hash_size = hash_size;\n        Ok(hash_size)", "        *options = EngineOptions {\n            hash_size,\n            ..EngineOptions::default()\n        };\n        Ok(hash_size)")]},
     {"name": "time-based poll switched off during the first iteration (seed C14-7b)", "expect": "C14-USE/TimeStrategy::should_stop/unclocked",
      "edits": [("src/engine/search/time_control.rs", "    next_check_at: u64,\n", "    next_check_at: u64,\n    current_depth: u8,\n"),
                ("src/engine/search/time_control.rs", "            next_check_at: params::CHECK_TERMINATION_NODE_FREQUENCY,\n", "            next_check_at: params::CHECK_TERMINATION_NODE_FREQUENCY,\n            current_depth: 1,\n"),
